@@ -154,7 +154,8 @@ def ids : List (String × (Defects → Defects)) :=
    ("C09-input-object-any-literal", fun d => { d with inputObjectAnyValue := false }),
    ("C09-enum-accepts-string", fun d => { d with enumAcceptsString := false }),
    ("C09-int-range-unchecked", fun d => { d with intRangeNotChecked := false }),
-   ("C09-missing-variable-accepted", fun d => { d with missingVariableAccepted := false })]
+   ("C09-missing-variable-accepted", fun d => { d with missingVariableAccepted := false }),
+   ("C09-ifdef-skips-unknown-field", fun d => { d with ifdefSkipsUnknownField := false })]
 
 def defectsOf (known : List String) : Defects :=
   { inputValueNotForwarded := known.contains "C09-input-value-not-forwarded",
@@ -166,7 +167,8 @@ def defectsOf (known : List String) : Defects :=
     inputObjectAnyValue := known.contains "C09-input-object-any-literal",
     enumAcceptsString := known.contains "C09-enum-accepts-string",
     intRangeNotChecked := known.contains "C09-int-range-unchecked",
-    missingVariableAccepted := known.contains "C09-missing-variable-accepted" }
+    missingVariableAccepted := known.contains "C09-missing-variable-accepted",
+    ifdefSkipsUnknownField := known.contains "C09-ifdef-skips-unknown-field" }
 
 /-- execution-time messages for problems validation is required to catch -/
 def mustBeCaught (m : String) : Bool :=
